@@ -307,11 +307,15 @@ def real_stream(run):
             except ValueError:
                 pass
         LAMMPS_PairTabulation(ps, cut, nr).write(s)
-        blocks = lammps_tokens(s.getvalue(), "raw", None)
+        problem = None
+        try:
+            blocks = lammps_tokens(s.getvalue(), "raw", None)
+        except ValueError as e_:
+            # the stream does not have the table layout at all (e.g. a block cut short by an earlier failed write, followed by further blocks)
+            blocks, problem = [], "layout: %s" % e_
         run.case(key=("real", nr, cut, tuple(d for d, _, _ in pots)), kind="real")
         run.traces += 1
-        problem = None
-        if len(blocks) != len(pots):
+        if not problem and len(blocks) != len(pots):
             problem = "block count %d != %d" % (len(blocks), len(pots))
         for (desc, f, dref), b in zip(pots, blocks):
             if problem:
